@@ -32,6 +32,7 @@ vars == <<l, st, viol>>
 ----------------------------------------------------------------------------
 Upd(f, k, v) == [x \in (DOMAIN f) \cup {k} |-> IF x = k THEN v ELSE f[x]]
 Range(s) == {s[i] : i \in DOMAIN s}
+Has(a, f) == f \in DOMAIN a
 HasClk(r) == r.lam # 0 /\ DOMAIN r.vv # {}
 Cp(x) == [s |-> x[1], c |-> x[2]]
 
@@ -41,7 +42,7 @@ EmptySt ==
   [tid |-> "", family |-> "", clients |-> {}, docs |-> {}, threshold |-> 0, interval |-> 0,
    log |-> <<>>, epoch |-> <<>>, removed |-> <<>>, nopres |-> <<>>, ref |-> <<>>, pre |-> <<>>,
    rep |-> <<>>, resp |-> <<>>, att |-> <<>>, gcoff |-> <<>>, active |-> <<>>, lastReq |-> <<>>,
-   lastResCp |-> <<>>, hist |-> <<>>, row |-> <<>>]
+   lastResCp |-> <<>>, hist |-> <<>>, row |-> <<>>, held |-> <<>>]
 
 InitSt(e) ==
   LET cs == Range(e.clients)
@@ -64,7 +65,8 @@ InitSt(e) ==
       row     |-> [k \in K |-> [has |-> FALSE, vv |-> <<>>]],  \* ghost of tblVersionVectors: vector of the last
                                              \* successful request of an attached participating client
       lastResCp |-> [k \in K |-> <<0, 0>>],  \* checkpoint of the last response of the session
-      hist    |-> [k \in K |-> [past |-> <<>>, future |-> <<>>]]]
+      hist    |-> [k \in K |-> [past |-> <<>>, future |-> <<>>]],
+      held    |-> <<>>]                      \* locks held per handler goroutine (concurrent traces)
 
 ----------------------------------------------------------------------------
 (* Derived notions *)
@@ -180,12 +182,19 @@ Chk(cond, tag) == IF cond THEN {} ELSE {tag}
 Pushables(e) ==
   SelectSeq(e.req.chs, LAMBDA ch : ch.cs > e.ci.c /\ ~(e.nopres /\ ch.nops = 0 /\ ch.pres # "none"))
 
-PPStep(s, e) ==
+\* packs.PushPull is three linearization points: the log append (Create, under the
+\* push lock), the version-vector row write (VVSet) and the response. Sequential
+\* drivers log them as one PP event; concurrent runs (gates, stress) log them as
+\* separate PPC / VV / PPR events taken from the hooks at those points.
+Stale(e) == e.created /\ e.ci.st # "none" /\ e.ci.epoch # e.epoch
+
+\* -- Create: rows appended
+PPCStep(s, e) ==
   LET d == e.d
       k == <<e.c, d>>
       known == k \in DOMAIN s.rep
       old == s.log[d]
-      stale == e.created /\ e.ci.st # "none" /\ e.ci.epoch # e.epoch
+      stale == Stale(e)
       mkrow(r) == [id |-> <<r.actor, e.sess, r.cs>>, s |-> r.s, actor |-> r.actor, cs |-> r.cs,
                    lam |-> r.lam, vv |-> r.vv, nops |-> r.nops, pres |-> r.pres, stripped |-> FALSE]
       newrows == [i \in DOMAIN e.rows |-> mkrow(e.rows[i])]
@@ -202,7 +211,27 @@ PPStep(s, e) ==
         Chk((newrows # <<>> /\ known) => s.active[e.c], "WriteOnlyWhenActive") \cup
         Chk((newrows # <<>> /\ known) => (e.rpc = "attach" \/ s.att[k] = "attached"), "WriteOnlyWhenAttached") \cup
         Chk(e.created => e.seq = Len(old) + Len(newrows), "HeadMatchesLog")
-      log2 == old \o newrows
+      s2 == [s EXCEPT !.log = Upd(@, d, old \o newrows),
+                      !.removed = Upd(@, d, @[d] \/ (e.created /\ e.docremoved)),
+                      !.nopres = Upd(@, d, @[d] \/ (e.created /\ e.nopresdoc)),
+                      !.lastReq = IF known THEN Upd(@, k, e.req.vv) ELSE @]
+  IN R(s2, vStore)
+
+\* -- VVSet: DB.updateVersionVector wrote (or deleted) the client's row
+VVStep(s, e) ==
+  LET k == <<e.c, e.d>>
+      known == k \in DOMAIN s.rep
+  IN R([s EXCEPT !.row = IF known /\ e.vvset
+                         THEN Upd(@, k, IF e.status = "attached" THEN [has |-> TRUE, vv |-> e.req.vv] ELSE [has |-> FALSE, vv |-> <<>>])
+                         ELSE @], {})
+
+\* -- Respond
+PPRStep(s, e) ==
+  LET d == e.d
+      k == <<e.c, d>>
+      known == k \in DOMAIN s.rep
+      stale == Stale(e)
+      log2 == s.log[d]
       \* -- response checks (C04 delivery, C06 minimum vector, C10 stale, C12 presence)
       res == e.res
       pulledOK ==
@@ -218,18 +247,23 @@ PPStep(s, e) ==
       minSound ==
         (e.ok /\ e.hasmin /\ res.hasvv /\ ~res.snap) =>
           /\ VVLeq(res.vv, e.req.vv)
-          /\ \A x \in others : VVLeq(res.vv, s.row[x].vv)
+          /\ (~e.concurrent => \A x \in others : VVLeq(res.vv, s.row[x].vv))
       \* C11: never below the minimum over the clients that are still attached -
       \* a client that detached or was deactivated no longer holds GC back
       minNotHeldBack ==
-        (e.ok /\ e.hasmin /\ res.hasvv /\ ~res.snap /\ known /\ e.status = "attached") =>
+        (e.ok /\ e.hasmin /\ res.hasvv /\ ~res.snap /\ known /\ e.status = "attached" /\ ~e.concurrent) =>
           VVLeq(MinVV({e.req.vv} \cup {s.row[x].vv : x \in others}), res.vv)
+      \* C03 (schedule dependent): the vector handed out with a pull range ending at
+      \* e.init presumes that whoever wrote a later row had seen everything it covers
+      gcSafe ==
+        (e.ok /\ e.hasmin /\ res.hasvv /\ ~res.snap /\ e.init >= 0) =>
+          \A i \in 1..Len(log2) : (i > e.init /\ log2[i].actor # e.c /\ HasClk(log2[i])) => VVLeq(res.vv, log2[i].vv)
       vRes ==
         IF ~e.ok THEN {}
         ELSE Chk(pulledOK, "PulledMatchesLog") \cup Chk(pulledInc, "PulledInOrder") \cup Chk(noEcho, "NoEcho") \cup
-             Chk(minSound, "MinVVSound") \cup Chk(minNotHeldBack, "MinVVNotHeldBack") \cup
+             Chk(minSound, "MinVVSound") \cup Chk(minNotHeldBack, "MinVVNotHeldBack") \cup Chk(gcSafe, "GCSafe") \cup
              Chk(~stale => res.cp[1] <= Len(log2), "ResponseCheckpointBound") \cup
-             Chk((known /\ e.rpc = "sync" /\ ~e.pushonly) => res.cp[1] >= s.lastResCp[k][1], "CheckpointMonotone") \cup
+             Chk((known /\ e.rpc = "sync" /\ ~e.pushonly /\ ~e.concurrent) => res.cp[1] >= s.lastResCp[k][1], "CheckpointMonotone") \cup
              Chk((e.nopresdoc \/ e.nopres) => (\A i \in DOMAIN res.pulled : res.pulled[i].pres = "none"), "NoPresenceInResponses") \cup
              Chk((e.nopresdoc \/ e.nopres) /\ res.snap => res.snappres = "", "NoPresenceInSnapshots") \cup
              Chk(stale => e.status # "attached", "StaleRefused") \cup
@@ -240,19 +274,17 @@ PPStep(s, e) ==
       gc2 == IF ~known \/ ~e.ok THEN s.gcoff ELSE Upd(s.gcoff, k, e.gcoff)
       respRec == [ok |-> e.ok, err |-> e.err, cp |-> Cp(res.cp), pulled |-> [i \in DOMAIN res.pulled |-> res.pulled[i].s],
                   snap |-> res.snap, removed |-> res.removed, epoch |-> e.epoch, status |-> e.status,
-                  hasvv |-> res.hasvv, vv |-> res.vv]
-      s2 == [s EXCEPT !.log = Upd(@, d, log2),
-                      !.removed = Upd(@, d, @[d] \/ (e.created /\ e.docremoved)),
-                      !.nopres = Upd(@, d, @[d] \/ (e.created /\ e.nopresdoc)),
-                      !.att = att2, !.gcoff = gc2,
+                  hasvv |-> res.hasvv, vv |-> res.vv, rid |-> e.rid]
+      s2 == [s EXCEPT !.att = att2, !.gcoff = gc2,
                       !.resp = IF known THEN Upd(@, k, Append(@[k], respRec)) ELSE @,
-                      !.lastReq = IF known THEN Upd(@, k, e.req.vv) ELSE @,
-                      !.row = IF known /\ e.ok
-                              THEN Upd(@, k, IF e.status = "attached" /\ ~e.gcoff THEN [has |-> TRUE, vv |-> e.req.vv]
-                                             ELSE IF e.status = "attached" THEN @[k] ELSE [has |-> FALSE, vv |-> <<>>])
-                              ELSE @,
                       !.lastResCp = IF known /\ e.ok /\ e.status = "attached" /\ ~e.pushonly THEN Upd(@, k, res.cp) ELSE @]
-  IN R(s2, vStore \cup vRes)
+  IN R(s2, vRes)
+
+PPStep(s, e) ==
+  LET a == PPCStep(s, e)
+      b == VVStep(a.st, e)
+      c == PPRStep(b.st, e)
+  IN R(c.st, a.v \cup b.v \cup c.v)
 
 \* ---- client side: the SDK call returned; adopt the replica ------------
 RepOf(e, old, k, s) ==
@@ -300,7 +332,8 @@ ExpectedFailure(s, e, k, rss) ==
 ClientStep(s, e) ==
   LET k == <<e.c, e.d>>
       d == e.d
-      rss == s.resp[k]
+      \* a retried request: the client applies the response of the request it names
+      rss == IF Has(e, "rid") /\ e.rid # "" THEN SelectSeq(s.resp[k], LAMBDA x : x.rid = e.rid) ELSE s.resp[k]
       old == IF s.rep[k].has THEN s.rep[k] ELSE NoRep
       hasrep == "rep" \in DOMAIN e
       base == IF hasrep THEN RepOf(e, old, k, s) ELSE old
@@ -321,7 +354,8 @@ ClientStep(s, e) ==
                   => new.cp.s = Max2(old.cp.s, rss[Len(rss)].cp.s), "CheckpointAdopted") \cup
            Chk((e.ok /\ e.ev \in {"Detach"}) => s.att[k] \in {"detached", "removed"}, "DetachTakesEffect") \cup
            Chk((e.ok /\ e.ev \in {"Remove"}) => s.att[k] = "removed" /\ s.removed[d], "RemoveTakesEffect")
-      s2 == [s EXCEPT !.rep = Upd(@, k, new), !.resp = Upd(@, k, <<>>)]
+      s2 == [s EXCEPT !.rep = Upd(@, k, new),
+                      !.resp = Upd(@, k, IF Has(e, "rid") /\ e.rid # "" THEN SelectSeq(@[k], LAMBDA x : x.rid # e.rid) ELSE <<>>)]
   IN R(s2, v)
 
 \* ---- C07: sequential reference semantics of the index-based editing API --
@@ -338,7 +372,6 @@ AddWrap32(p, v) ==
   IF v >= 0 /\ p > 2147483647 - v THEN MinI32 + ((p - 2147483647) + (v - 1))
   ELSE IF v < 0 /\ p < MinI32 - v THEN 2147483647 - (((MinI32 - p) + (0 - v)) - 1)
   ELSE p + v
-Has(a, f) == f \in DOMAIN a
 
 \* moving the item at (0-based) index t to right after the item at index p
 MoveAfterIdx(q, p, t) ==
@@ -468,7 +501,9 @@ CompactStep(s, e) ==
       s2 == IF e.ok
             THEN [s EXCEPT !.log = Upd(@, d, newlog), !.epoch = Upd(@, d, e.epoch), !.ref = Upd(@, d, <<>>),
                            !.row = [x \in DOMAIN @ |-> IF x[2] = d THEN [has |-> FALSE, vv |-> <<>>] ELSE @[x]],
-                           !.pre = Upd(@, d, [has |-> Len(newlog) >= 1, content |-> headc])]
+                           \* (inside a gated concurrent phase the reference is not fed, so the
+                           \* content just before the compaction is not known: C10 checks it sequentially)
+                           !.pre = Upd(@, d, [has |-> Len(newlog) >= 1 /\ ~Has(e, "concurrent"), content |-> headc])]
             ELSE s
   IN R(s2, v)
 
@@ -476,15 +511,43 @@ DeactivateStep(s, e) ==
   LET c == e.c
       ks == {k \in DOMAIN s.att : k[1] = c}
       v == Chk(e.ok => \A k \in ks : s.att[k] \notin {"attached", "attaching"}, "DeactivateDetachesAll") \cup
-           Chk(e.ok, "DeactivateNeverFails")
+           Chk(e.ok \/ Has(e, "concurrent"), "DeactivateNeverFails")
   IN R([s EXCEPT !.active = IF e.ok THEN Upd(@, c, FALSE) ELSE @,
                  !.resp = [k \in DOMAIN @ |-> IF k[1] = c THEN <<>> ELSE @[k]]], v)
 
 ActivateStep(s, e) == R([s EXCEPT !.active = IF e.ok THEN Upd(@, e.c, TRUE) ELSE @], {})
 
+\* ---- concurrent traces: locks, dropped responses, end of a gated phase -----
+LockRank(lk) == CASE lk = "doc" -> 1 [] lk = "pull" -> 2 [] lk = "attach" -> 3 [] lk = "push" -> 4 [] OTHER -> 9
+Held(s, g) == IF g \in DOMAIN s.held THEN s.held[g] ELSE {}
+LStep(s, e) ==
+  LET g == e.gid
+      h == Held(s, g)
+      \* C16: documented acquisition order doc < pull < attachment < push
+      v == Chk((e.op = "wait" /\ e.lock \in {"doc", "pull", "attach", "push"})
+                  => \A x \in h : LockRank(x[1]) < LockRank(e.lock), "LockOrder")
+      h2 == CASE e.op = "acquired" -> h \cup {<<e.lock, e.mode>>}
+              [] e.op = "released" -> h \ {<<e.lock, e.mode>>}
+              [] OTHER -> h
+  IN R([s EXCEPT !.held = Upd(@, g, h2)], v)
+
+DroppedStep(s, e) ==
+  LET k == <<e.c, e.d>> IN
+  R([s EXCEPT !.resp = Upd(@, k, SelectSeq(@[k], LAMBDA x : x.rid # e.rid))], {})
+
+\* C16: every request of the phase returned (nothing is blocked for good)
+PhaseStep(s, e) == R(s, Chk(e.blocked = <<>>, "Completion") \cup Chk(e.drift = <<>>, "ScheduleDrift"))
+
 Step(s, e) ==
   CASE e.ev = "Init" -> R(InitSt(e), {})
     [] e.ev = "PP" -> PPStep(s, e)
+    [] e.ev = "PPC" -> LET r == PPCStep(s, e) IN
+                       R(r.st, r.v \cup Chk(e.rows # <<>> => <<"push", "W">> \in Held(s, e.gid), "CreateUnderPushLock"))
+    [] e.ev = "VV" -> VVStep(s, e)
+    [] e.ev = "PPR" -> PPRStep(s, e)
+    [] e.ev = "L" -> LStep(s, e)
+    [] e.ev = "Dropped" -> DroppedStep(s, e)
+    [] e.ev = "Phase" -> PhaseStep(s, e)
     [] e.ev \in {"Attach", "Sync", "Detach", "Remove"} -> ClientStep(s, e)
     [] e.ev \in {"Edit", "Undo", "Redo"} -> EditStep(s, e)
     [] e.ev = "Ref" -> RefStep(s, e)
@@ -503,7 +566,9 @@ TraceNext ==
          r == Step(st, e)
          f == r.v \cup (IF e.ev \in {"Init", "End", "Skip"} THEN {} ELSE FailedState(r.st))
      IN /\ st' = r.st
-        /\ viol' = viol \cup {[tag |-> t, tid |-> r.st.tid, line |-> l] : t \in f}
+        \* one record per (behaviour, invariant): the first line at which it fails
+        /\ viol' = viol \cup {[tag |-> t, tid |-> r.st.tid, line |-> l] :
+                                  t \in {x \in f : ~\E w \in viol : w.tag = x /\ w.tid = r.st.tid}}
   /\ l' = l + 1
 
 TraceSpec == TraceInit /\ [][TraceNext]_vars
